@@ -272,18 +272,18 @@ func (dm *DMap) checkPutConditions(e *env) error {
 	}
 
 	// Only set the key if it already exists.
-	if e.putConfig.HasXX && !e.fragment.storage.Check(e.hkey) {
+	// XX and Expire need a live key: a key that is missing, or that has expired
+	// but has not been evicted yet, is "not found" for both.
+	if e.putConfig.HasXX || e.putConfig.OnlyUpdateTTL {
 		ttl, err := e.fragment.storage.GetTTL(e.hkey)
-		if err == nil {
-			if isKeyExpired(ttl) {
-				return ErrKeyNotFound
-			}
-		}
 		if errors.Is(err, storage.ErrKeyNotFound) {
-			err = ErrKeyNotFound
+			return ErrKeyNotFound
 		}
 		if err != nil {
 			return err
+		}
+		if isKeyExpired(ttl) {
+			return ErrKeyNotFound
 		}
 	}
 	return nil
